@@ -59,6 +59,9 @@ fn fuzz_stage(id: &str, prop: &props::Property, seed: u64, scale: f64, violation
     for suite in &prop.suites {
         // runs per process: cheap function-level suites get many, world suites fewer
         let base: u64 = if suite.op_len == 0 && suite.head_len <= 64 { 600_000 } else if suite.op_len == 0 { 60_000 } else { 25_000 };
+        // never more than an eighth of the suite's thorough case count per process: suites whose single case is
+        // expensive (a whole caller matrix, a 40-pair registry walk) declare fewer cases and get fewer runs
+        let base = base.min(suite.thorough_cases / 8);
         let runs = ((base as f64 * scale) as u64).max(100);
         let max_len = (suite.head_len + suite.op_len * suite.max_ops) * 8;
         let work = verif_root_static().join(format!("harness/target/fuzz-work/{}-{}", id, suite.name));
